@@ -533,9 +533,42 @@ func (w *world) apply(o op) (enabled bool, err error) {
 	return true, nil
 }
 
-// check compares every reader with the model; returns a description of the first mismatch.
-func (w *world) check() (reader string, want, got string, ok bool) {
+// mismatch is one reader whose observation differs from the model.
+type mismatch struct {
+	reader, want, got string
+	// pair: the committed history this reader sits on holds a key together with a whole-segment
+	// extension of it (the key shape of the recorded finding); false = the shape only exists in
+	// pending (uncommitted) layers or not at all
+	pair bool
+}
+
+// committedPair reports whether hist, as of version v, holds some key and a whole-segment extension of it
+// (any version counts, dead or alive: tombstones are stored and stepped over like values).
+func committedPair(u *universe, hist map[string][]ver, v uint64) bool {
+	has := func(key []byte) bool {
+		for _, x := range hist[string(key)] {
+			if x.v <= v {
+				return true
+			}
+		}
+		return false
+	}
+	for _, a := range u.keys {
+		for _, b := range u.keys {
+			if len(b) > len(a) && bytes.HasPrefix(b, a) && has(a) && has(b) {
+				return true
+			}
+		}
+	}
+	return false
+}
+
+// check compares every reader with the model; returns every reader that disagrees.
+func (w *world) check() (out []mismatch) {
 	m := w.m
+	add := func(reader, want, got string, hist map[string][]ver, v uint64) {
+		out = append(out, mismatch{reader, want, got, committedPair(w.u, hist, v)})
+	}
 	// live store and every nested level
 	for lvl := 0; lvl < len(m.levels); lvl++ {
 		var r lib.RStoreI = w.st
@@ -543,52 +576,53 @@ func (w *world) check() (reader string, want, got string, ok bool) {
 			r = w.nested[lvl-1]
 		}
 		ov := m.levels[:lvl+1]
-		want = expectObs(w.u, func(key string) (string, bool) { return readThrough(m.hist, m.version, ov, key) })
+		want := expectObs(w.u, func(key string) (string, bool) { return readThrough(m.hist, m.version, ov, key) })
 		got, err := actualObs(w.u, r)
 		if err != nil {
-			return fmt.Sprintf("level%d", lvl), want, "ERROR " + err.Error(), false
+			got = "ERROR " + err.Error()
 		}
 		if got != want {
-			return fmt.Sprintf("level%d", lvl), want, got, false
+			add(fmt.Sprintf("level%d", lvl), want, got, m.hist, m.version)
 		}
 	}
 	if m.cp != nil {
 		c := m.cp
-		want = expectObs(w.u, func(key string) (string, bool) { return readThrough(c.hist, c.version, []overlay{c.pending}, key) })
+		want := expectObs(w.u, func(key string) (string, bool) { return readThrough(c.hist, c.version, []overlay{c.pending}, key) })
 		got, err := actualObs(w.u, w.cp)
 		if err != nil {
-			return "copy", want, "ERROR " + err.Error(), false
+			got = "ERROR " + err.Error()
 		}
 		if got != want {
-			return "copy", want, got, false
+			add("copy", want, got, c.hist, c.version)
 		}
 	}
 	for i, v := range m.views {
 		got, err := actualObs(w.u, w.views[i])
 		if err != nil {
-			return fmt.Sprintf("heldview@%d", v.version), v.obs, "ERROR " + err.Error(), false
+			got = "ERROR " + err.Error()
 		}
 		if got != v.obs {
-			return fmt.Sprintf("heldview@%d", v.version), v.obs, got, false
+			add(fmt.Sprintf("heldview@%d", v.version), v.obs, got, m.hist, v.version)
 		}
 	}
 	for v := uint64(1); v <= m.version; v++ {
 		ro, e := w.st.NewReadOnly(v)
 		if e != nil {
-			return fmt.Sprintf("freshview@%d", v), "", "ERROR " + e.Error(), false
+			add(fmt.Sprintf("freshview@%d", v), "", "ERROR "+e.Error(), m.hist, v)
+			continue
 		}
 		vv := v
-		want = expectObs(w.u, func(key string) (string, bool) { return committedAt(m.hist, key, vv) })
+		want := expectObs(w.u, func(key string) (string, bool) { return committedAt(m.hist, key, vv) })
 		got, err := actualObs(w.u, ro)
 		ro.Discard()
 		if err != nil {
-			return fmt.Sprintf("freshview@%d", v), want, "ERROR " + err.Error(), false
+			got = "ERROR " + err.Error()
 		}
 		if got != want {
-			return fmt.Sprintf("freshview@%d", v), want, got, false
+			add(fmt.Sprintf("freshview@%d", v), want, got, m.hist, v)
 		}
 	}
-	return "", "", "", true
+	return
 }
 
 type replay struct {
@@ -620,14 +654,27 @@ func execPath(u *universe, alpha []op, path []int) (res mc.ExecResult) {
 			return
 		}
 	}
-	if reader, want, got, good := w.check(); !good {
-		kind := "read-mismatch"
-		if getPart(want) == getPart(got) {
-			kind = "iteration-mismatch"
+	if ms := w.check(); len(ms) > 0 {
+		seen := map[string]bool{}
+		for _, mm := range ms {
+			kind := "read-mismatch"
+			if getPart(mm.want) == getPart(mm.got) {
+				kind = "iteration-mismatch"
+			}
+			sg := sig(u, kind, readerClass(mm.reader))
+			if u.class == "segprefix" && !mm.pair {
+				// the recorded finding needs BOTH keys of a segment-prefix pair in committed history; a
+				// disagreement without such a pair is something else and is reported under its own class
+				sg = "C10:" + kind + ":" + readerClass(mm.reader) + ":class=segprefix-pending-only"
+			}
+			if seen[sg] {
+				continue
+			}
+			seen[sg] = true
+			res.Viols = append(res.Viols, mc.Viol{Sig: sg,
+				What:   fmt.Sprintf("universe=%s after %v reader %s returned\n   got  %s\n   want %s", u.name, names, mm.reader, mm.got, mm.want),
+				Replay: replay{World: "store", Universe: u.name, Ops: names, Path: path, Reader: mm.reader, Want: mm.want, Got: mm.got}})
 		}
-		res.Viols = append(res.Viols, mc.Viol{Sig: sig(u, kind, readerClass(reader)),
-			What:   fmt.Sprintf("universe=%s after %v reader %s returned\n   got  %s\n   want %s", u.name, names, reader, got, want),
-			Replay: replay{World: "store", Universe: u.name, Ops: names, Path: path, Reader: reader, Want: want, Got: got}})
 		return
 	}
 	res.Key, res.OK = mc.Hash(w.m.key()), true
@@ -670,6 +717,8 @@ type vsCase struct {
 	writes [][]int // per version: per key 0=untouched 1=set x 2=set yy 3=delete
 }
 
+var world2Until = 1.0
+
 func runVersionedStore(r *mc.Run, u *universe, nVersions, maxTouched int) (cases int64, distinct int) {
 	nk := 4 // first four keys of the universe
 	// enumerate per-version write vectors with <= maxTouched touched keys
@@ -697,7 +746,7 @@ func runVersionedStore(r *mc.Run, u *universe, nVersions, maxTouched int) (cases
 	for i := range obsSet {
 		obsSet[i] = map[string]bool{}
 	}
-	done := mc.ParallelFor(total, 0, r.Expired, func(idx int) {
+	done := mc.ParallelFor(total, 0, func() bool { return r.ExpiredFrac(world2Until) }, func(idx int) {
 		c := vsCase{}
 		x := idx
 		for i := 0; i < nVersions; i++ {
@@ -816,11 +865,16 @@ func main() {
 	var totalTrans int64
 	var perUni []map[string]any
 	pool := mc.NewProcPool(0)
-	for _, u := range []*universe{&uniNarrow, &uniPlain, &uniSeg} {
+	// every part owns a share of the soft deadline (cumulative fractions), so that a slow machine
+	// shortens each search instead of dropping the later ones; the narrow-deep universe runs last
+	// and takes whatever is left
+	until := map[string]float64{"plain": 0.30, "segprefix": 0.42, "world2": 0.62, "narrow": 1.0}
+	runStore := func(u *universe) {
 		alpha := alphabet(u, !r.Quick())
+		frac := until[u.name]
 		st := mc.ReplayBFS(mc.BFSConfig{
 			Tag: u.name + "|" + r.Tier, NumOps: len(alpha), MaxDepth: depth[u.name], Pool: pool,
-			OnViol: r.OnViol, Stop: r.Expired,
+			OnViol: r.OnViol, Stop: func() bool { return r.ExpiredFrac(frac) },
 		})
 		totalStates += st.States
 		totalTrans += st.Transitions
@@ -838,6 +892,9 @@ func main() {
 		}
 		fmt.Printf("store world universe=%s depth=%d states=%d transitions=%d frontier=%v complete=%v\n", u.name, st.DepthDone, st.States, st.Transitions, st.Frontier, st.Complete)
 	}
+	runStore(&uniPlain)
+	runStore(&uniSeg)
+	world2Until = until["world2"]
 	// world 2
 	nv := map[string]int{"plain": 3, "segprefix": 2}
 	if !r.Quick() {
@@ -849,6 +906,7 @@ func main() {
 		vsCases += n
 		fmt.Printf("versioned-store world universe=%s layouts=%d/%d versions=%d (each read at every version, seek+linear, fwd+rev)\n", u.name, n, total, nv[u.name])
 	}
+	runStore(&uniNarrow)
 	cov["states"] = totalStates
 	cov["transitions"] = totalTrans
 	cov["traces_validated_against_impl"] = int(totalTrans)
